@@ -69,7 +69,57 @@ def unbounded_core(ctx):
                                    "theorem": "LockCore!Correct: Spec => [](Mutex /\\ AtMostOnce /\\ NoPartialOut) for every Proc"}
 
 
+def slow_workflow_race(ctx, secs, gap):
+    """two submitters of one SLOW workflow under the cf worker (the asynchronous job lock, PydraFileLock, whose
+    waiters poll with a growing interval): the workflow body runs once, both submitters get the outputs"""
+    import json
+    import shutil
+    import subprocess
+    import tempfile
+    import time
+    shared = tempfile.mkdtemp(prefix="verif_slowwf_")
+    try:
+        procs = []
+        for k, nm in enumerate(("A", "B")):
+            procs.append(subprocess.Popen([core.PY, "-m", "harness.slowwf_child", shared, nm, str(secs)], env=core.child_env(hooks=False),
+                                          stdout=subprocess.DEVNULL, stderr=subprocess.DEVNULL))
+            if k == 0:
+                time.sleep(gap)
+        for p in procs:
+            try:
+                p.wait(timeout=secs * 3 + 120)
+            except subprocess.TimeoutExpired:
+                p.kill()
+        outs = []
+        for nm in ("A", "B"):
+            f = f"{shared}/out_{nm}.json"
+            outs.append(json.load(open(f)) if __import__("os").path.exists(f) else {"name": nm, "status": "no outcome"})
+        log = open(f"{shared}/bodies.log").read().split("\n") if __import__("os").path.exists(f"{shared}/bodies.log") else []
+        return {"outs": outs, "wf_bodies": sum(1 for l in log if l.startswith("wf ")), "node_bodies": sum(1 for l in log if l == "node")}
+    finally:
+        shutil.rmtree(shared, ignore_errors=True)
+
+
+def judge_slow(ctx, secs, gap, o):
+    ctx.ran()
+    ctx.nontriv(("slow-workflow-race", secs, gap))
+    bad = []
+    if [x.get("status") for x in o["outs"]] != ["ok", "ok"] or any(x.get("out") != 2 for x in o["outs"]):
+        bad.append("not every submitter returned the outputs")
+    if o["wf_bodies"] != 1:
+        bad.append(f"the workflow body ran {o['wf_bodies']} times")
+    if o["node_bodies"] != 1:
+        bad.append(f"the node body ran {o['node_bodies']} times")
+    if bad:
+        ctx.violation("two submitters of one slow workflow (cf worker): " + "; ".join(bad),
+                      case={"slow_workflow_race": {"secs": secs, "gap": gap}}, expected="one execution, identical outputs", observed=o)
+
+
 def run(ctx):
+    # ---- asynchronous job lock: waiters of a slow workflow (poll interval grows past its cap) ----
+    import concurrent.futures as cfut
+    slow_pool = cfut.ThreadPoolExecutor(max_workers=2)
+    slow = [(s, g, slow_pool.submit(slow_workflow_race, ctx, s, g)) for s, g in ([(10.0, 1.0), (14.0, 0.3)] if ctx.thorough else [(10.0, 1.0)])]
     # ---- M1 design check ----
     r = ctx.tlc("MC_JobProtocol", cfg="MC_C10.cfg", workers=8, coverage=True, timeout=900)
     ctx.require_coverage(r, ACTIONS)
@@ -81,6 +131,8 @@ def run(ctx):
     ctx.observe("concurrent rerun submitters: the lock-free final read can find the directory wiped (TLC counterexample exists)")
     # ---- unbounded core: LockCore proved by TLAPS for any number of submitters, linked to JobProtocol by refinement ----
     unbounded_core(ctx)
+    for s_, g_, fut in slow:
+        judge_slow(ctx, s_, g_, fut.result())
     # ---- M3 behaviours -> real processes ----
     behs = jc.tlc_behaviours(ctx, "c10_2p", ["p1", "p2"], lroot="LeftoversAndDone")   # incl. leftover incomplete directories
     if ctx.thorough:
@@ -131,6 +183,12 @@ def run(ctx):
 
 
 def replay(ctx, rec):
+    if "slow_workflow_race" in rec["case"]:
+        c = rec["case"]["slow_workflow_race"]
+        o = slow_workflow_race(ctx, c["secs"], c["gap"])
+        print(o)
+        judge_slow(ctx, c["secs"], c["gap"], o)
+        return
     spec = rec["case"]["spec"]
     o = jc.execute(spec)
     ctx.ran()
